@@ -504,14 +504,10 @@ theorem dropLast_append_getLast (l : Text) (c : Char) (h : l.getLast? = some c) 
     subst h
     simp
 
-/-- end (exclusive of the newline) of the last selected line: `text.find("\n", to)` or `len - 1` -/
-def linesTo (t : Text) (hi : Nat) : Nat :=
-  match findNlFrom t hi with
-  | some k => k
-  | none => t.length - 1
-
-theorem linesTo_ge (t : Text) (hi : Nat) (h : hi ≤ t.length) : hi ≤ linesTo t hi + 1 := by
-  unfold linesTo
+/-- in Vi mode the range of a LINES selection ends behind its upper end -/
+theorem linesEnd_ge (t : Text) (hi : Nat) (h : hi ≤ t.length) : hi ≤ linesEnd t hi true := by
+  unfold linesEnd linesEndI
+  simp only [if_true]
   split
   · rename_i k hk; have := findNlFrom_ge _ _ _ hk; omega
   · omega
@@ -519,14 +515,13 @@ theorem linesTo_ge (t : Text) (hi : Nat) (h : hi ≤ t.length) : hi ≤ linesTo 
 theorem cutSelection_lines_eq (t : Text) (cur orig : Nat) :
     cutSelection t cur orig .lines true =
       let from_ := min cur orig - col { text := t, cur := min cur orig }
-      let to := linesTo t (max cur orig)
-      let raw := (t.take (to + 1)).drop from_
-      ({ text := t.take from_ ++ t.drop (to + 1), cur := from_ },
+      let e := linesEnd t (max cur orig) true
+      let raw := (t.take e).drop from_
+      ({ text := t.take from_ ++ t.drop e, cur := from_ },
        { text := if raw.getLast? = some '\n' ∧ (findNlFrom t (max cur orig)).isSome then raw.dropLast else raw,
          ty := .lines }) := by
   simp only [cutSelection, selectionRanges, cutLoop, if_true, join, List.nil_append, List.drop_zero,
-    true_and, linesTo]
-  rfl
+    true_and]
 
 /-- **LINES cut fidelity.**  For a linewise selection (Vi mode) between two positions inside the
     text, what `cut_selection` removes is one contiguous span: the stored text, followed by at
@@ -539,15 +534,15 @@ theorem cutSelection_lines_fidelity (t : Text) (cur orig : Nat) (hc : cur ≤ t.
   rw [cutSelection_lines_eq]
   simp only
   generalize hfrom : min cur orig - col { text := t, cur := min cur orig } = from_
-  have hge := linesTo_ge t (max cur orig) (by omega)
-  generalize linesTo t (max cur orig) = to at hge
+  have hge := linesEnd_ge t (max cur orig) (by omega)
+  generalize linesEnd t (max cur orig) true = e at hge
   have h1 : from_ ≤ t.length := by omega
-  have h2 : from_ ≤ to + 1 := by omega
-  have hre := cut_reinsert t from_ (to + 1) h2 h1
+  have h2 : from_ ≤ e := by omega
+  have hre := cut_reinsert t from_ e h2 h1
   split
   · rename_i hs
-    exact ⟨(t.take (to + 1)).drop from_, Or.inr (dropLast_append_getLast _ _ hs.1), hre.symm, trivial⟩
-  · exact ⟨(t.take (to + 1)).drop from_, Or.inl rfl, hre.symm, trivial⟩
+    exact ⟨(t.take e).drop from_, Or.inr (dropLast_append_getLast _ _ hs.1), hre.symm, trivial⟩
+  · exact ⟨(t.take e).drop from_, Or.inl rfl, hre.symm, trivial⟩
 
 example : cutSelection "a\nbc\nd".toList 3 2 .lines true = ({ text := "a\nd".toList, cur := 2 }, ⟨"bc".toList, .lines⟩) := by
   decide
